@@ -137,7 +137,11 @@ func genRegions(r *rand.Rand, sectors int) ([]refcrypt.Region, string) {
 
 func genOps(r *rand.Rand, size int64, n int) []viewOp {
 	var ops []viewOp
+	far := FarOffsets()
 	offs := func() int64 {
+		if r.Intn(14) == 0 {
+			return far[r.Intn(len(far))]
+		}
 		switch r.Intn(6) {
 		case 0:
 			return int64(r.Intn(int(size/2048)+1)) * 2048
